@@ -97,7 +97,12 @@ def recording_middleware(log: MwLog, conn_tag: int, behaviour: str = "ok"):
                 got = {k: v for k, v in kw.items() if v is not _MISSING}
                 log.events.append({"e": "sig", "kind": kind, "name": op, "conn": conn_tag, "k": CUR.get(),
                                    "keys": sorted(got), "resok": True})
-            if behaviour == "sync":
+            if behaviour == "greedy":
+                # asks for every argument any signal can carry, and one that none carries, all without defaults: the
+                # middleware cannot call it -- which is the subscriber's problem, not the operation's
+                async def sub(key, payload, params, queue_name, id_, result, actor, parameters, connection, no_such_argument):
+                    record(key=key)
+            elif behaviour == "sync":
                 def sub(key=_MISSING, payload=_MISSING, params=_MISSING, queue_name=_MISSING, id_=_MISSING, result=_MISSING,
                         actor=_MISSING, parameters=_MISSING, connection=_MISSING):
                     record(key=key, payload=payload, params=params, queue_name=queue_name, id_=id_, result=result,
